@@ -1,7 +1,7 @@
 """C20 — texture containers: field-offset tables, magic rejection, fallible payload reads, record assembly."""
 import re
 from mir import fmt, walk, strip_refs, norm, callee_names, call_target
-from binser import for_loops, enclosing_loops, rpo_index, affine, fmt_affine
+from binser import for_loops, enclosing_loops, rpo_index, affine, fmt_affine, poly
 from flow import enum_paths, PathLimit, cond_truth, guards, control_deps
 
 EXPLANATION = ("For every header / record constructor of the CTPK, BCH and CGFX readers the sequence of fallible "
@@ -108,6 +108,9 @@ def value_fields(t, prefix):
             continue
         if x[0] == "index":
             st.append(x[1])
+            continue
+        if x[0] == "call" and x[1].endswith("Iterator>::next"):
+            # an element of an iteration: how the collection was built does not flow into the element's value
             continue
         if x[0] == "field" and isinstance(x[2], str) and len(x) > 4 and x[4] and str(x[4]).startswith(prefix):
             out.append((x[2], x[4]))
@@ -327,6 +330,7 @@ def tpl_sizes(facts, rep, R5):
             rep.violation(R5, bd.name, "block:" + v, "TPL format %s has block dimensions %s (width, height); GX uses %s" % (v, table.get(v), want), "%s:%s" % (bd.file, bd.line))
     # size formula
     bad = None
+    unknown = None
     factors = {}
     for p in enum_paths(bs):
         if p.end != "ret":
@@ -338,30 +342,39 @@ def tpl_sizes(facts, rep, R5):
             r = ("bin", r[1][1].replace("WithOverflow", ""), r[1][2], r[1][3])
         op, k = "mul", 1
         base = r
-        if r[0] == "bin" and r[1] in ("Mul", "Div") and r[3][0] == "const":
-            op, k, base = ("mul" if r[1] == "Mul" else "div"), r[3][1], r[2]
-        if base[0] == "field" and base[1][0] == "bin":
-            base = ("bin", base[1][1].replace("WithOverflow", ""), base[1][2], base[1][3])
-        ok_base = False
-        if base[0] == "bin" and base[1] == "Mul":
-            sides = []
-            for side in (base[2], base[3]):
-                if side[0] == "call" and side[1].endswith("texture_utils::align") and len(side[2]) == 2:
-                    dim = [x[1] for x in walk(side[2][0]) if x[0] == "param"]
-                    blk = side[2][1]
-                    comp = blk[3] if (blk[0] == "field" and isinstance(blk[3], int) and any(x[0] == "call" and x[1].endswith("block_dimensions") for x in walk(blk))) else None
-                    sides.append((dim[0] if dim else None, comp))
+        if r[0] == "bin" and r[1] == "Div" and r[3][0] == "const":
+            op, k, base = "div", r[3][1], r[2]
+        # commutative normal form: k * align(..) * align(..)
+        pl = poly(base)
+        sides = None
+        if pl is not None and len(pl) == 1:
+            (mono, coeff), = pl.items()
+            if len(mono) == 2 and coeff > 0:
+                if op == "mul":
+                    k = coeff
+                elif coeff != 1:
+                    mono = None
+                sides = []
+                for side in (mono or ()):
+                    if side[0] == "call" and side[1].endswith("texture_utils::align") and len(side[2]) == 2:
+                        dim = [x[1] for x in walk(side[2][0]) if x[0] == "param"]
+                        blk = side[2][1]
+                        comp = blk[3] if (blk[0] == "field" and isinstance(blk[3], int) and any(x[0] == "call" and x[1].endswith("block_dimensions") for x in walk(blk))) else None
+                        sides.append((dim[0] if dim else None, comp))
+        if sides is None or len(sides) != 2 or any(c is None or d is None for d, c in sides):
+            unknown = "size is not recognised as align(height, bh) * align(width, bw) scaled per format: %s" % fmt(r)[:120]
+        elif sorted(sides, key=str) == sorted([(2, 1), (3, 0)], key=str):
             # parameters: (self, height, width): height pairs with component 1 (block height), width with 0
-            if sorted(sides, key=str) == sorted([(2, 1), (3, 0)], key=str):
-                ok_base = True
-            else:
-                bad = "payload rows/columns are aligned as %s (parameter, block component); specified height->block height (1), width->block width (0)" % sides
+            pass
         else:
-            bad = "size is not align(height, bh) * align(width, bw) scaled per format"
+            bad = "payload rows/columns are aligned as %s (parameter, block component); specified height->block height (1), width->block width (0)" % sides
         for v in variants_of(bs, p):
             factors[v] = (op, k)
     if bad:
         rep.violation(R5, bs.name, "size-base", "TPL byte_size_of_image: " + bad, "%s:%s" % (bs.file, bs.line))
+    elif unknown:
+        rep.inconc(R5, "TPL byte_size_of_image: " + unknown)
+        return
     else:
         rep.ok(R5, {"fn": bs.name, "base": "align(height, block_h) * align(width, block_w)"})
     for v in ("RGB5A3", "RGBA8", "CI8"):
@@ -473,7 +486,7 @@ def self_relative(facts, rep, R1):
         for bb, t in rd.calls():
             if (callee_names(t)[1] or "").endswith("Seek>::seek"):
                 a = rd.term_of_operand(t["args"][1])
-                idxs = [x for x in walk(a) if x[0] == "call" and "ops::Index" in x[1] and x[2][1] == ("const", 1, "usize")]
+                idxs = [x for x in walk(a) if x[0] == "call" and "ops::Index" in x[1] and x[2][1][:2] == ("const", 1)]
                 flds = [x for x in walk(a) if x[0] == "field" and x[2] == "offset"]
                 if idxs and flds:
                     ok = True
